@@ -1047,7 +1047,7 @@ def main(tier):
         wit.append((os.path.join(T, 'params_witness_mpi.cpp'), True))
     rule_D(ck, wit)
     if os.path.exists(os.path.join(T, 'all_headers_mpi.cpp')):
-        rule_F(ck, T)
+        rule_F(ck, T, global_rule=False)
     ck.assumptions += ['Boost.PropertyTree get/put/get_child/add_child semantics',
                        'bitwise equality of results is not decided; it follows from identical classes and parameters only for deterministic components']
     return ck.finish()
